@@ -238,7 +238,19 @@ func (a *NilAnalysis) globalIntArray(gl *ssa.Global) (int64, int64, bool) {
 	return lo, hi, true
 }
 
-func (g *cgraph) defineParam(p *ssa.Parameter, key string) {}
+// defineParam: interprocedural lower bounds of integer parameters of unexported functions.
+func (g *cgraph) defineParam(p *ssa.Parameter, key string) {
+	fn := p.Parent()
+	s := g.a.sum[fn]
+	if s == nil || isExportedEntry(fn) || fn.Parent() != nil || !isIntegerT(p.Type()) {
+		return
+	}
+	for k, q := range fn.Params {
+		if q == p && k < len(s.paramIntLo) && s.paramIntLo[k] > -infW {
+			g.le(zeroTerm, key, -s.paramIntLo[k])
+		}
+	}
+}
 
 // defineParamLen: interprocedural length facts of slice/string parameters of unexported functions.
 func (g *cgraph) defineParamLen(p *ssa.Parameter, lt string) {
@@ -329,6 +341,7 @@ func (a *NilAnalysis) computeLenSummaries() {
 // updateParamLens joins len(arg) lower bounds over all in-package call sites.
 func (a *NilAnalysis) updateParamLens(fns []*ssa.Function) bool {
 	acc := map[*ssa.Function][]int64{}
+	accI := map[*ssa.Function][]int64{}
 	for _, fn := range fns {
 		for _, b := range fn.Blocks {
 			for _, ins := range b.Instrs {
@@ -362,6 +375,31 @@ func (a *NilAnalysis) updateParamLens(fns []*ssa.Function) bool {
 						if k >= len(actuals) {
 							continue
 						}
+						if isIntegerT(callee.Params[k].Type()) {
+							if g == nil {
+								a.cur, a.curFn = ins, fn
+								g = a.newGraph(fn, ins)
+							}
+							if accI[callee] == nil {
+								accI[callee] = make([]int64, len(callee.Params))
+								for i := range accI[callee] {
+									accI[callee][i] = infW
+								}
+							}
+							lo := -infW
+							if t, kk, ok := a.intTerm(actuals[k]); ok {
+								g.define(actuals[k], 0)
+								if t == "" {
+									lo = kk
+								} else if l, _, ok := g.boundsLo(t); ok {
+									lo = l + kk
+								}
+							}
+							if lo < accI[callee][k] {
+								accI[callee][k] = lo
+							}
+							continue
+						}
 						switch callee.Params[k].Type().Underlying().(type) {
 						case *types.Slice:
 						default:
@@ -393,6 +431,12 @@ func (a *NilAnalysis) updateParamLens(fns []*ssa.Function) bool {
 		if s.paramLenLo == nil {
 			s.paramLenLo = make([]int64, len(fn.Params))
 		}
+		if s.paramIntLo == nil {
+			s.paramIntLo = make([]int64, len(fn.Params))
+			for k := range s.paramIntLo {
+				s.paramIntLo[k] = -infW
+			}
+		}
 		for k := range fn.Params {
 			v := int64(0)
 			if acc[fn] != nil && acc[fn][k] < infW {
@@ -400,6 +444,14 @@ func (a *NilAnalysis) updateParamLens(fns []*ssa.Function) bool {
 			}
 			if s.paramLenLo[k] != v {
 				s.paramLenLo[k] = v
+				changed = true
+			}
+			vi := -infW
+			if accI[fn] != nil && accI[fn][k] < infW {
+				vi = accI[fn][k]
+			}
+			if s.paramIntLo[k] != vi {
+				s.paramIntLo[k] = vi
 				changed = true
 			}
 		}
